@@ -130,6 +130,44 @@ func rng(tb *termTable, t *term, lo, hi rune) *term {
 	return tb.and(tb.app(opULe, 0, tb.bv(uint64(lo), 32), t, nil), tb.app(opULe, 0, t, tb.bv(uint64(hi), 32), nil))
 }
 
+// hostRangeTable stands for a *unicode.RangeTable: the exported table
+// variables of package unicode are bound to these at start-up (the package's
+// init is not interpreted), so unicode.Is / In / IsOneOf reach the real tables.
+type hostRangeTable struct {
+	name string
+	t    *unicode.RangeTable
+}
+
+func hostTableOf(v value) *unicode.RangeTable {
+	if p, ok := v.(*value); ok && p != nil {
+		if h, ok := (*p).(hostRangeTable); ok {
+			return h.t
+		}
+	}
+	panic(engineError{"unicode range table that is not one of the package's exported tables"})
+}
+
+var unicodeAliases = map[string]string{"Letter": "L", "Lower": "Ll", "Upper": "Lu", "Title": "Lt", "Digit": "Nd", "Number": "N",
+	"Mark": "M", "Punct": "P", "Symbol": "S", "Space": "Z", "Other": "C"}
+
+// hostUnicodeTable finds the real table behind the name of an exported
+// variable of package unicode.
+func hostUnicodeTable(name string) *unicode.RangeTable {
+	if a, ok := unicodeAliases[name]; ok {
+		name = a
+	}
+	if t, ok := unicode.Categories[name]; ok {
+		return t
+	}
+	if t, ok := unicode.Properties[name]; ok {
+		return t
+	}
+	if t, ok := unicode.Scripts[name]; ok {
+		return t
+	}
+	return nil
+}
+
 type hostRegexp struct{ re *regexp.Regexp }
 
 func reOf(v value) *regexp.Regexp { return (*v.(*value)).(hostRegexp).re }
@@ -216,6 +254,40 @@ func init() {
 				return tb.or(rng(tb, t, '\t', '\r'), tb.eq(t, tb.bv(' ', 32)))
 			}, unicode.IsSpace)
 		},
+		"unicode.Is": func(fr *frame, a []value) value {
+			return unicode.Is(hostTableOf(a[0]), fr.i.conc(a[1]).(int32))
+		},
+		"unicode.In": func(fr *frame, a []value) value {
+			r := fr.i.conc(a[0]).(int32)
+			for _, t := range a[1].([]value) {
+				if unicode.Is(hostTableOf(t), r) {
+					return true
+				}
+			}
+			return false
+		},
+		"unicode.IsOneOf": func(fr *frame, a []value) value {
+			r := fr.i.conc(a[1]).(int32)
+			for _, t := range a[0].([]value) {
+				if unicode.Is(hostTableOf(t), r) {
+					return true
+				}
+			}
+			return false
+		},
+		"unicode.IsUpper":   func(fr *frame, a []value) value { return unicode.IsUpper(fr.i.conc(a[0]).(int32)) },
+		"unicode.IsLower":   func(fr *frame, a []value) value { return unicode.IsLower(fr.i.conc(a[0]).(int32)) },
+		"unicode.IsTitle":   func(fr *frame, a []value) value { return unicode.IsTitle(fr.i.conc(a[0]).(int32)) },
+		"unicode.IsNumber":  func(fr *frame, a []value) value { return unicode.IsNumber(fr.i.conc(a[0]).(int32)) },
+		"unicode.IsPunct":   func(fr *frame, a []value) value { return unicode.IsPunct(fr.i.conc(a[0]).(int32)) },
+		"unicode.IsSymbol":  func(fr *frame, a []value) value { return unicode.IsSymbol(fr.i.conc(a[0]).(int32)) },
+		"unicode.IsMark":    func(fr *frame, a []value) value { return unicode.IsMark(fr.i.conc(a[0]).(int32)) },
+		"unicode.IsControl": func(fr *frame, a []value) value { return unicode.IsControl(fr.i.conc(a[0]).(int32)) },
+		"unicode.IsGraphic": func(fr *frame, a []value) value { return unicode.IsGraphic(fr.i.conc(a[0]).(int32)) },
+		"unicode.IsPrint":   func(fr *frame, a []value) value { return unicode.IsPrint(fr.i.conc(a[0]).(int32)) },
+		"unicode.ToUpper":   func(fr *frame, a []value) value { return unicode.ToUpper(fr.i.conc(a[0]).(int32)) },
+		"unicode.ToLower":   func(fr *frame, a []value) value { return unicode.ToLower(fr.i.conc(a[0]).(int32)) },
+		"unicode.ToTitle":   func(fr *frame, a []value) value { return unicode.ToTitle(fr.i.conc(a[0]).(int32)) },
 		// ---- strings
 		"strings.IndexRune": func(fr *frame, a []value) value {
 			if !anySym(a[0], a[1]) {
